@@ -48,7 +48,7 @@ def rt_part(prop, tier, seed):
     for cid, c in res["cases"].items():
         if len(samples) >= 3:
             break
-        if prop in ("C09", "C11", "C18") and c["gprop"] != prop:
+        if prop in ("C09", "C11", "C15", "C16", "C18") and c["gprop"] != prop:
             continue
         if cid in res["failed"]:
             continue
